@@ -71,10 +71,11 @@ func edPlaceholders(run *edRun) string {
 }
 
 const edSigInherited = "retract-rationale:block-comment-inherited"
+const edSigBlank = "retract-rationale:blank-line-dropped"
 const edSigCollapsed = "retract-rationale:collapse-merged-block-comment"
 
 func edKnownCause(sig string) bool {
-	return strings.HasSuffix(sig, ":"+edSigInherited) || strings.HasSuffix(sig, ":"+edSigCollapsed) || strings.HasSuffix(sig, ":go-prerelease")
+	return strings.HasSuffix(sig, ":"+edSigInherited) || strings.HasSuffix(sig, ":"+edSigCollapsed) || strings.HasSuffix(sig, ":"+edSigBlank) || strings.HasSuffix(sig, ":go-prerelease")
 }
 
 // edRetractDetail pairs every typed retraction with the re-parsed one on the same output line and names
@@ -82,6 +83,7 @@ func edKnownCause(sig string) bool {
 // of the two structural causes recorded as findings (computed from the session itself):
 //   inherited: typed rationale "" for a line created by AddRetract that has no comment of its own and sits
 //              in a retract block whose comments the strict parser therefore attributes to it;
+//   blank:     a parsed line preceded only by a blank line (no inheritance at parse) lost that blank line;
 //   collapsed: a Cleanup of this session collapsed the one-line commented block around the line and merged
 //              the block's comments into it (re-parsed = block text [+ "\n" + typed]).
 func edRetractDetail(run *edRun) string {
@@ -132,6 +134,13 @@ func edRetractDetail(run *edRun) string {
 			q.Rationale == edDirectiveText(&b.Comments):
 			if known == "" {
 				known = edSigInherited
+			}
+		case r.Rationale == "" && run.BlankOnly[r.Syntax] && !edHasText(&r.Syntax.Comments) &&
+			((b != nil && edHasText(&b.Comments) && q.Rationale == edDirectiveText(&b.Comments)) || (wasCollapsed && q.Rationale == merged)):
+			// the line's only "comment" in the starting file was a blank-line placeholder; the output no longer
+			// has that blank line in front of it, so the strict parser now lets it inherit the block's comments
+			if known == "" {
+				known = edSigBlank
 			}
 		case wasCollapsed && (q.Rationale == merged+"\n"+r.Rationale || (r.Rationale == "" && created && q.Rationale == merged)):
 			if known == "" {
